@@ -12,7 +12,7 @@ import (
 func init() {
 	register(&Spec{ID: "C18", Title: "Pooled names are unique among concurrent holders", Run: runC18,
 		Meta: core.Meta{
-			Explanation: "R18.5 also covers ID: it returns *name.id itself. R18.5: Name.Name returns the name field itself and Name.String returns Name() or the field. Uniqueness among holders follows from three structural premises plus the documented semantics of sync.Pool (an item Put once is returned by at most one Get) and of atomic addition (distinct results); the premises are what is checked. R18.1: pool.idCounter is touched only by its initialiser (constant 0) and by one atomic add of the constant 1 inside sync.Pool.New, and the id handed out is THE RESULT of that add, stored behind a freshly allocated pointer (never 0; no separate load that another goroutine's add could precede). R18.2: idPool.Put has a single call site, in (*pool).Release, dominated by name != nil and name.id != nil, its argument is name.id, and every path from it to the return stores the zero Name into *name (so a second Release sees id == nil and cannot Put again). R18.4: Acquire returns a Name allocated by that very call (a recycled Name object would make a stale pointer's second Release clear another holder's name and free its id). R18.3: idPool.Get has a single call site, in Acquire; the id stored in the new Name and the id formatted into its text are the same SSA value and the format is pool.format; Name.id and Name.name are written nowhere else in the module.",
+			Explanation: "R18.6: every struct field passed to a 64-bit sync/atomic function lies at an offset divisible by 8 under the 32-bit size model (types.SizesFor gc/386). R18.5 also covers ID: it returns *name.id itself. R18.5: Name.Name returns the name field itself and Name.String returns Name() or the field. Uniqueness among holders follows from three structural premises plus the documented semantics of sync.Pool (an item Put once is returned by at most one Get) and of atomic addition (distinct results); the premises are what is checked. R18.1: pool.idCounter is touched only by its initialiser (constant 0) and by one atomic add of the constant 1 inside sync.Pool.New, and the id handed out is THE RESULT of that add, stored behind a freshly allocated pointer (never 0; no separate load that another goroutine's add could precede). R18.2: idPool.Put has a single call site, in (*pool).Release, dominated by name != nil and name.id != nil, its argument is name.id, and every path from it to the return stores the zero Name into *name (so a second Release sees id == nil and cannot Put again). R18.4: Acquire returns a Name allocated by that very call (a recycled Name object would make a stale pointer's second Release clear another holder's name and free its id). R18.3: idPool.Get has a single call site, in Acquire; the id stored in the new Name and the id formatted into its text are the same SSA value and the format is pool.format; Name.id and Name.name are written nowhere else in the module.",
 			NotDecided:  "Linearizability over schedules, concurrent Release of the same *Name from two goroutines, and (*Name)(nil).Release() are not decided.",
 			Assumptions: []string{"sync.Pool never returns one stored item to two Gets", "atomic add results are pairwise distinct until wrap-around of uint64"},
 		}})
@@ -26,6 +26,8 @@ func runC18(r *core.Run) {
 	r.Rule("R18.5", "the accessors hand out the text and the id as they are", 3, false)
 	defer accessorsReturnField(r, "R18.5")
 	defer idAsMinted(r, "R18.5")
+	r.Rule("R18.6", "the id counter can be incremented atomically on every target", 1, false)
+	defer atomic64Aligned(r, "R18.6")
 	r.Rule("R18.3", "a name's text and id come from one Get; Name fields are written nowhere else", 3, true)
 
 	fCounter := p.Field("namepool", "pool", "idCounter")
